@@ -193,3 +193,86 @@ Example renaming_guard_satisfiable :
   map (rename_label neutral_defs 0 10) ["main_"; "Aa_1"; "Aa_1_Bx"; "List_i64_2"; "List_i64_2_Cy"; "cleanup"; "lab7"]
     = ["main_"; "Aa_11"; "Aa_11_Bx"; "List_i64_12"; "List_i64_12_Cy"; "cleanup"; "lab17"].
 Proof. vm_compute. repeat split. Qed.
+
+(* ---------- the comparison of the run-time check ----------
+   harness/src/cmd_det.rs normalize_labels replaces the numbers of generated labels by the index of their
+   first occurrence (it cannot know the counter value a run started from).  [canon] is that numbering on
+   a sequence of numbers; it is invariant under every renaming that is injective on the sequence, in
+   particular under k |-> k - c1 + c2 on numbers above c1. *)
+Fixpoint index_of (k : N) (seen : list N) : option nat :=
+  match seen with [] => None | x :: r => if N.eqb k x then Some O else option_map S (index_of k r) end.
+Fixpoint canon_aux (seen : list N) (l : list N) : list nat :=
+  match l with
+  | [] => []
+  | k :: r => match index_of k seen with
+              | Some i => i :: canon_aux seen r
+              | None => List.length seen :: canon_aux (seen ++ [k]) r
+              end
+  end.
+Definition canon (l : list N) : list nat := canon_aux [] l.
+
+Lemma index_of_map f k seen :
+  (forall x, In x seen -> f k = f x -> k = x) -> index_of (f k) (map f seen) = index_of k seen.
+Proof.
+  induction seen as [|x r IH]; intros I; [reflexivity|]. cbn [map index_of].
+  destruct (N.eqb k x) eqn:E.
+  - apply N.eqb_eq in E. subst. rewrite N.eqb_refl. reflexivity.
+  - destruct (N.eqb (f k) (f x)) eqn:E'.
+    + apply N.eqb_eq in E'. apply I in E'; [|left; reflexivity]. apply N.eqb_neq in E. contradiction.
+    + rewrite IH; [reflexivity|]. intros y Hy. apply I. right. exact Hy.
+Qed.
+Lemma canon_aux_map f : forall l seen,
+  (forall x y, In x (seen ++ l) -> In y (seen ++ l) -> f x = f y -> x = y) ->
+  canon_aux (map f seen) (map f l) = canon_aux seen l.
+Proof.
+  induction l as [|k r IH]; intros seen I; [reflexivity|]. cbn [map canon_aux].
+  rewrite index_of_map.
+  - destruct (index_of k seen).
+    + f_equal. apply IH. intros x y Hx Hy. apply I; apply in_app_or in Hx, Hy; apply in_or_app; (destruct Hx; [left|right; right]; assumption) || idtac;
+        destruct Hy; [left|right; right]; assumption.
+    + rewrite map_length. f_equal. replace (map f seen ++ [f k]) with (map f (seen ++ [k])) by (rewrite map_app; reflexivity).
+      apply IH. intros x y Hx Hy. apply I; rewrite <- app_assoc in Hx, Hy; assumption.
+  - intros x Hx. apply I; apply in_or_app; [right; left; reflexivity|left; exact Hx].
+Qed.
+Theorem canon_invariant f l :
+  (forall x y, In x l -> In y l -> f x = f y -> x = y) -> canon (map f l) = canon l.
+Proof. intros I. apply (canon_aux_map f l []). exact I. Qed.
+Lemma renumber_injective c1 c2 x y : (c1 <= x)%N -> (c1 <= y)%N -> renumber c1 c2 x = renumber c1 c2 y -> x = y.
+Proof. unfold renumber. lia. Qed.
+
+(* the numbers of the generated labels in a sequence of label texts *)
+Section Numbers.
+Variables okS okX : string -> bool.
+Variable cut : string -> option (string * string).
+Hypothesis cut_tl : forall T k, okS T = true -> decode_with cut (pr (GTL T k)) = Some (GTL T k).
+Hypothesis cut_cl : forall T k X, okS T = true -> okX X = true -> decode_with cut (pr (GCL T k X)) = Some (GCL T k X).
+Definition numbers (ls : list string) : list N :=
+  flat_map (fun l => match decode cut l with Some g => [key g] | None => [] end) ls.
+(* labels a program in the universe can emit: generated ones, definition labels, cleanup *)
+Definition known (l : string) : Prop :=
+  (exists g, l = pr g /\ in_univ okS okX g) \/ l = "cleanup".
+Lemma numbers_rename f ls :
+  (forall l, In l ls -> known l) -> numbers (map (rho cut f) ls) = map f (numbers ls).
+Proof.
+  induction ls as [|l r IH]; intros K; [reflexivity|]. cbn [map numbers flat_map]. fold (numbers (map (rho cut f) r)). fold (numbers r).
+  rewrite map_app, IH by (intros x Hx; apply K; right; exact Hx). f_equal.
+  destruct (K l (or_introl eq_refl)) as [(g & -> & U)| ->].
+  - destruct (is_gen g) eqn:G.
+    + rewrite (rho_gen okS okX cut cut_tl cut_cl f g U G).
+      assert (U' : in_univ okS okX (with_key f g)) by (destruct g; exact U).
+      assert (G' : is_gen (with_key f g) = true) by (destruct g; try discriminate; reflexivity).
+      rewrite (decode_pr okS okX cut cut_tl cut_cl _ U' G'), (decode_pr okS okX cut cut_tl cut_cl _ U G).
+      destruct g; try discriminate; reflexivity.
+    + destruct g; try discriminate. cbn [in_univ] in U. cbn [pr]. rewrite (rho_def cut f name U).
+      change (name ++ "_")%string with (pr (GDef name)). rewrite (decode_def cut name U). reflexivity.
+  - reflexivity.
+Qed.
+(* hence: first-occurrence renumbering cannot distinguish a run from its shifted copy *)
+Theorem canon_numbers_shift c1 c2 ls :
+  (forall l, In l ls -> known l) -> (forall k, In k (numbers ls) -> (c1 <= k)%N) ->
+  canon (numbers (map (rho cut (renumber c1 c2)) ls)) = canon (numbers ls).
+Proof.
+  intros K B. rewrite (numbers_rename _ _ K). apply canon_invariant.
+  intros x y Hx Hy. apply renumber_injective; apply B; assumption.
+Qed.
+End Numbers.
